@@ -86,7 +86,7 @@ def cli_listing(cfg):
 def run(tier: str) -> int:
     chk = Check("C18", tier, "model_checking")
     chk.rule = ("cases = configurations of spec/Gitignore.tla: all 324 with <= 1 line per .gitignore (root, d/) plus a seeded sample of the "
-                "94 249 with <= 2 lines (quick 700, thorough 12 000); 7 files at depth <= 3; non-trivial = configuration in which git ignores "
+                "94 249 with <= 2 lines (quick 700, thorough 12 000), every (p, q, p) sandwich at the root and seeded three-line configurations; 7 files at depth <= 3; non-trivial = configuration in which git ignores "
                 "at least one file")
     chk.assumptions = ["git on PATH is the oracle (git ls-files -co --exclude-standard in a scratch repository, global/system config disabled)",
                        "the universe is 7 files x 17 patterns x 2 ignore files; patterns outside it are not covered"]
@@ -112,7 +112,16 @@ def run(tier: str) -> int:
         c = (rng.choice(lines), rng.choice(lines))
         if c not in model:
             extra.add(c)
-    allcfg = configs + sorted(extra)
+    # order-sensitive "sandwiches" (p, q, p) and seeded three-line configurations: last-match-wins depends on keeping every line
+    # in order, duplicates included (git re-reads a repeated pattern at its later position)
+    sandwiches = {((a, b, a), ()) for a in range(1, 18) for b in range(1, 18) if a != b} | {((), (a, b, a)) for a in (1, 7, 11, 12) for b in (1, 7, 11, 12, 15) if a != b}
+    if tier == "quick":
+        sandwiches = {c for k, c in enumerate(sorted(sandwiches)) if (k + chk.seed) % 2 == 0}
+    lines3 = [(i, j, k) for i in range(1, 18) for j in range(1, 18) for k in range(1, 18)]
+    triples = set()
+    while len(triples) < (150 if tier == "quick" else 3000):
+        triples.add((rng.choice(lines3), rng.choice(lines)) if rng.random() < 0.5 else (rng.choice(lines), rng.choice(lines3)))
+    allcfg = configs + sorted(extra) + sorted(sandwiches) + sorted(triples)
     chk.notes["model_configurations"] = len(configs)
     chk.notes["sampled_two_line"] = len(extra)
     with ThreadPoolExecutor(16) as ex:
@@ -132,7 +141,7 @@ def run(tier: str) -> int:
             chk.nontriv(c)
         if c in cli_obs and cli_obs[c] != fm:
             chk.violation("CliListingEqualsResolver", dict(metas[tid], cli=[f for f, x in zip(FILES, cli_obs[c]) if x]))
-    reports, gen, dist = tlc.validate_traces("GitTrace", traces, cfg=tlc.cfg_text(spec="TraceSpec", constants=dict(PatIds=pat, MaxLines=2, DoDump=False),
+    reports, gen, dist = tlc.validate_traces("GitTrace", traces, cfg=tlc.cfg_text(spec="TraceSpec", constants=dict(PatIds=pat, MaxLines=3, DoDump=False),
                                                                                   invariants=["TraceReport"]))
     chk.states += dist
     chk.transitions += gen
